@@ -9,9 +9,10 @@
 // signature value verifies under the embedded leaf's public key.
 //
 // Development knobs (never needed by ./check):
-//   C07_KNOWN_EXTRA=key1,key2   treat these violation keys as known findings
-//   C07_ONLY=<config id>,<type id>   run one case in-process and print what was observed
-//   --replay <file>             same, reading config/type ids from a replay artefact
+//
+//	C07_KNOWN_EXTRA=key1,key2   treat these violation keys as known findings
+//	C07_ONLY=<config id>,<type id>[,<hash>[,<path>]]   run one case (all types when <type id> is empty) in-process and print what was observed
+//	--replay <file>             same, reading config/type ids from a replay artefact
 package main
 
 import (
@@ -19,8 +20,11 @@ import (
 	"crypto"
 	"crypto/x509"
 	"encoding/json"
+	"errors"
 	"fmt"
 	"io"
+	"net/http"
+	"net/http/httptest"
 	"net/url"
 	"os"
 	"path/filepath"
@@ -28,14 +32,19 @@ import (
 	"runtime/debug"
 	"sort"
 	"strings"
+	"time"
 
+	"github.com/sassoftware/relic/v8/cmdline/workercmd"
 	"github.com/sassoftware/relic/v8/config"
 	"github.com/sassoftware/relic/v8/server"
 	"github.com/sassoftware/relic/v8/token"
 	"github.com/sassoftware/relic/v8/token/open"
+	"github.com/sassoftware/relic/v8/token/tokencache"
+	"github.com/sassoftware/relic/v8/token/worker"
 
 	"verif/faketoken"
 	"verif/relicx"
+	"verif/shim/vtime"
 	"verif/vlib"
 )
 
@@ -71,6 +80,10 @@ type keyCfg struct {
 	TokenCert []string `json:"token_cert,omitempty"` // certificates the token itself supplies: fixture leaf names, "inter", "root"
 	Override  bool     `json:"token_getkey_override,omitempty"`
 	Alias     bool     `json:"alias,omitempty"`
+	// Worker: the token is relic's worker client talking to the worker's RPC
+	// handler (token cache over the scripted token), as for pkcs11 tokens.
+	// stable | rotated-cache-live | rotated-cache-expired | rotated-cache-expired-token-honours-id | rotated-cache-expired-no-key-id
+	Worker string `json:"worker_scenario,omitempty"`
 }
 
 func enumConfigs() []keyCfg {
@@ -111,7 +124,10 @@ func enumConfigs() []keyCfg {
 			}
 		}
 		c.ID = fmt.Sprintf("%s|x509=%s|pgp=%s|%s", c.Requested, c.X509Src, c.PGPSrc, c.Token)
-		if c.Signer != c.Requested {
+		if c.Worker != "" {
+			c.ID += "|worker=" + c.Worker
+		}
+		if c.Signer != c.Requested && c.Worker == "" {
 			c.ID += "|signer=" + c.Signer
 		}
 		out = append(out, c)
@@ -148,6 +164,8 @@ func enumConfigs() []keyCfg {
 	} {
 		add(keyCfg{Requested: p[0], X509Src: p[2] + "-of-" + p[1], X509Class: clMismatch, X509Kind: "cert-file", X509File: fx(p[1] + "." + p[2] + ".crt")})
 	}
+	// same curve, same X coordinate, other Y (the negated point)
+	add(keyCfg{Requested: "p256A", Signer: "p256A", X509Src: "leaf-of-p256A-for-negated-point-key", X509Class: clMismatch, X509Kind: "cert-file", KeyFile: gen("p256A-negated.key"), X509File: fx("p256A.leaf.crt")})
 	add(keyCfg{Requested: "rsaA", X509Src: "pkcs12-key-rsaA-leaf-p256A", X509Class: clMismatch, X509Kind: "pkcs12", KeyFile: gen("key-rsaA-leaf-p256A.p12"), IsP12: true})
 	add(keyCfg{Requested: "p256A", X509Src: "pkcs12-key-p256A-leaf-rsaA", X509Class: clMismatch, X509Kind: "pkcs12", KeyFile: gen("key-p256A-leaf-rsaA.p12"), IsP12: true})
 	add(keyCfg{Requested: "rsaA", X509Src: "pkcs12-matching-chain-root-first", X509Class: clOrder, KeyFile: gen("rsaA.chain-rootfirst.p12"), IsP12: true})
@@ -158,6 +176,28 @@ func enumConfigs() []keyCfg {
 	add(keyCfg{Requested: "p256A", Signer: "rsaA", Token: "verif", X509Src: "chain-leaf-first", X509Class: clMismatch, X509Kind: "token-lookup", X509File: fx("p256A.chain.crt"), Override: true})
 	add(keyCfg{Requested: "rsaA", Signer: "rsaB", Token: "verif", X509Src: "token-cert-stale", X509Class: clMismatch, X509Kind: "token-lookup", TokenCert: []string{"rsaA", "inter", "root"}, Override: true})
 	add(keyCfg{Requested: "rsaA", X509Src: "alias->chain-leaf-first", X509Class: clConsistent, X509File: fx("rsaA.chain.crt"), Alias: true})
+	// worker RPC path (what pkcs11 tokens use): the key under the requested name is
+	// replaced in the token after the caller looked it up and before it signs
+	for _, k := range []string{"rsaA", "p256A"} {
+		o := other[k]
+		w := func(scn, class, kind, signer string) {
+			_ = signer
+			c := keyCfg{Requested: k, Signer: k, Token: "verif", X509Src: "chain-leaf-first", X509Class: class, X509Kind: kind, X509File: fx(k + ".chain.crt"), Worker: scn, Override: true, WantLeaf: k}
+			if f := pgpOf(k); f != "" {
+				c.PGPFile, c.PGPSrc, c.PGPClass, c.PGPKind = f, "file-same", class, kind
+				if class == clConsistent || class == clOrder {
+					c.WantPGP = k
+				}
+			}
+			add(c)
+		}
+		w("stable", clConsistent, "", k)
+		w("rotated-cache-live", clConsistent, "", k) // the worker's cache still holds the key the caller saw
+		// error, or an artifact made entirely by the key the caller looked up
+		w("rotated-cache-expired", clOrder, "worker-key-rotated:key-id-sent", o)
+		w("rotated-cache-expired-token-honours-id", clOrder, "", k) // error (or the old key, if the token still finds it)
+		w("rotated-cache-expired-no-key-id", clOrder, "worker-key-rotated:no-key-id", o)
+	}
 	// OpenPGP certificate sources (X.509 half: the key's own chain)
 	pg := func(req, src, class, kind, file, want string) {
 		add(keyCfg{Requested: req, X509Src: "chain-leaf-first", X509Class: clConsistent, X509File: fx(req + ".chain.crt"),
@@ -220,7 +260,9 @@ func (c keyCfg) build(forServer bool) *config.Config {
 		must(fmt.Errorf("config %s: %w", c.ID, err))
 	}
 	faketoken.Reset()
-	if c.Override {
+	if c.Worker != "" {
+		c.scriptWorkerToken(cfg)
+	} else if c.Override {
 		var tc []byte
 		for _, n := range c.TokenCert {
 			tc = append(tc, certByName(n).Raw...)
@@ -238,6 +280,72 @@ func (c keyCfg) build(forServer bool) *config.Config {
 		}
 	}
 	return cfg
+}
+
+// worker scenario state (one case at a time per process)
+var wk struct {
+	armed, rotated bool
+}
+
+// scriptWorkerToken: the token behind the worker. Like relic's pkcs11 token it
+// looks keys up by the configured name only and ignores the key id a caller
+// passes in the context, unless the scenario says it honours it.
+func (c keyCfg) scriptWorkerToken(cfg *config.Config) {
+	wk.armed, wk.rotated = false, false
+	oldKey, newKey := M.Signer[c.Requested], M.Signer[map[string]string{"rsaA": "rsaB", "p256A": "p256B"}[c.Requested]]
+	ids := [2][]byte{[]byte("id-1"), []byte("id-2")}
+	if c.Worker == "rotated-cache-expired-no-key-id" {
+		ids = [2][]byte{nil, nil}
+	}
+	faketoken.S.GetKey = func(ctx context.Context, tokenName, name string) (token.Key, error) {
+		conf, err := cfg.GetKey(name)
+		if err != nil {
+			return nil, err
+		}
+		k := &faketoken.Key{Tok: tokenName, Name: name, Conf: conf, Signer: oldKey, ID: ids[0]}
+		if wk.rotated {
+			k.Signer, k.ID = newKey, ids[1]
+		}
+		if c.Worker == "rotated-cache-expired-token-honours-id" {
+			if want := token.KeyID(ctx); len(want) != 0 && string(want) != string(k.ID) {
+				return nil, token.NotImplementedError{Op: "find key by id " + string(want), Type: "verif"}
+			}
+		}
+		return k, nil
+	}
+}
+
+type rt func(*http.Request) (*http.Response, error)
+
+func (f rt) RoundTrip(r *http.Request) (*http.Response, error) { return f(r) }
+
+// workerToken wires relic's worker client to the worker's RPC handler in-process.
+func (c keyCfg) workerToken(cfg *config.Config) token.Token {
+	base, err := faketoken.Open(cfg, "tok", nil)
+	must(err)
+	const expiry = 600 * time.Second // relic's default TokenCacheSeconds
+	h := workercmd.VerifHandler(tokencache.New(base, expiry), []byte("cookie"), func() {})
+	http.DefaultClient.Transport = rt(func(req *http.Request) (*http.Response, error) {
+		if req.URL.Path == "/sign" && wk.armed && !wk.rotated && c.Worker != "stable" {
+			// between the caller's key lookup and its sign request: the key under
+			// this name is replaced in the token ...
+			wk.rotated = true
+			if strings.HasPrefix(c.Worker, "rotated-cache-expired") {
+				// ... and the worker's cache entry runs out
+				vtime.Advance(expiry + time.Second)
+			}
+		}
+		rec := httptest.NewRecorder()
+		r2 := httptest.NewRequest(req.Method, req.URL.String(), req.Body)
+		r2.Header = req.Header
+		h.ServeHTTP(rec, r2)
+		res := rec.Result()
+		res.Request = req
+		return res, nil
+	})
+	tconf := cfg.Tokens["tok"]
+	tconf.Retries = 1 // no back-off sleeps; retry behaviour is C15's subject
+	return worker.VerifNewToken(cfg, tconf, "cookie", "worker.invalid:1")
 }
 
 func (c keyCfg) useName() string {
@@ -279,6 +387,7 @@ func sigTypes() []sigType {
 		{ID: "jar", Cert: "x509", Input: "hello.jar", Steps: one("jar", nil), Extract: "jar"},
 		{ID: "jar:inline", Cert: "x509", Input: "hello.jar", Steps: one("jar", map[string]string{"inline-signature": "true"}), Extract: "jar", Thorough: true},
 		{ID: "apk:v1+v2", Cert: "x509", Input: "dummy.apk", Steps: []step{{"jar", map[string]string{"apk-v2-present": "true"}}, {"apk", nil}}, Extract: "apk"},
+		{ID: "apk:v2-only", Cert: "x509", Input: "dummy.apk", Steps: one("apk", nil), Extract: "apk-v2"},
 		{ID: "xap", Cert: "x509", Input: "dummy.xap", Steps: one("xap", nil), Extract: "scan"},
 		{ID: "vsix", Cert: "x509", Input: "VSIXProject1.vsix", Steps: one("vsix", nil), Extract: "vsix"},
 		{ID: "vsix:detach-certs", Cert: "x509", Input: "VSIXProject1.vsix", Steps: one("vsix", map[string]string{"detach-certs": "true"}), Extract: "vsix"},
@@ -310,6 +419,10 @@ var pathRe = regexp.MustCompile(`/[^ :"]*c07-[^ :"]*`)
 var numRe = regexp.MustCompile(`\b[0-9a-f]{8,}\b|\b[0-9]+\b`)
 
 func short(err error) string {
+	var he *relicx.HTTPError
+	if errors.As(err, &he) {
+		return fmt.Sprintf("HTTP %d", he.Status)
+	}
 	s := pathRe.ReplaceAllString(err.Error(), "<tmp>")
 	s = strings.ReplaceAll(s, relicx.KeyDir, "<keys>")
 	s = numRe.ReplaceAllString(s, "N")
@@ -341,6 +454,7 @@ type pathKind string
 const (
 	pathStandalone pathKind = "standalone"
 	pathServer     pathKind = "server"
+	pathWorker     pathKind = "worker-rpc"
 )
 
 // signCase drives relic; returns the artifact path (and the content path for detached signatures).
@@ -380,6 +494,9 @@ func signCase(c keyCfg, t sigType, hash crypto.Hash, via pathKind, dir string) (
 			defer srv.Close()
 			return relicx.SignViaServer(srv.Handler(), req)
 		}
+		if via == pathWorker {
+			return relicx.SignStandalone(cfg, c.workerToken(cfg), req)
+		}
 		tok, err := open.Token(cfg, "tok", staticPrompt(p12Password))
 		if err != nil {
 			return err
@@ -387,7 +504,9 @@ func signCase(c keyCfg, t sigType, hash crypto.Hash, via pathKind, dir string) (
 		defer tok.Close()
 		return relicx.SignStandalone(cfg, tok, req)
 	}
-	for _, s := range t.Steps {
+	defer func() { http.DefaultClient.Transport = nil }()
+	for i, s := range t.Steps {
+		wk.armed = i == len(t.Steps)-1
 		if err = doStep(s); err != nil {
 			return
 		}
@@ -452,7 +571,12 @@ func runCase(c keyCfg, t sigType, hash crypto.Hash, via pathKind, tmp string, ve
 	artifact, content, serr, panicked := signCase(c, t, hash, via, dir)
 	res := caseResult{}
 	replay := func() any {
-		return map[string]any{"case": id, "configuration": c, "result": res, "how": "C07_ONLY='" + c.ID + "," + t.ID + "' ./check C07 quick"}
+		return map[string]any{"case": id, "configuration": c, "result": res, "how": "C07_ONLY='" + c.ID + "," + t.ID + "," + id.Hash + "," + id.Path + "' ./check C07 quick"}
+	}
+	sample := func() {
+		if hash == crypto.SHA256 && sampleWanted[c.ID+","+t.ID] {
+			run.Sample(map[string]any{"case": id, "x509_class": c.X509Class, "pgp_class": c.PGPClass, "error": res.Err, "observations": res.Obs, "violations": res.Problems})
+		}
 	}
 	if panicked != "" {
 		// a crash is C11's subject; here it only counts as "no artifact"
@@ -469,6 +593,7 @@ func runCase(c keyCfg, t sigType, hash crypto.Hash, via pathKind, tmp string, ve
 		if verbose {
 			fmt.Println(label, "ERROR", serr)
 		}
+		sample()
 		return false
 	}
 	obs, xerr := extract(t.Extract, artifact, content)
@@ -492,6 +617,11 @@ func runCase(c keyCfg, t sigType, hash crypto.Hash, via pathKind, tmp string, ve
 	for _, o := range obs {
 		pre := t.ID + ":" + o.Part + ":"
 		switch {
+		case o.VerifyErr != nil && strings.HasPrefix(kind, "worker-key-rotated"):
+			// one root cause whatever the signature type (the worker signs with whichever key
+			// the name resolves to at that moment); keyed by the signature mechanism, since
+			// the CMS path is saved by its own self-check and the others have none
+			viol("worker-rpc:key-replaced-between-lookup-and-sign:"+strings.TrimPrefix(kind, "worker-key-rotated:")+":"+mechanism(o), fmt.Sprintf("the key under the requested name was replaced in the token between the caller's lookup and its sign request (worker cache entry expired); relic emitted a signature made by the new key under the old key's certificate (%v) [%s]", o.VerifyErr, describe(o)))
 		case o.VerifyErr != nil && class == clMismatch:
 			viol(pre+"mismatched-cert-accepted:"+kind, fmt.Sprintf("signature emitted although the configured certificate does not belong to the signing key; signature value does not verify under the embedded leaf (%v) [%s]", o.VerifyErr, describe(o)))
 		case o.VerifyErr != nil && contains(o.Problems, "issuer-unknown"):
@@ -549,10 +679,37 @@ func runCase(c keyCfg, t sigType, hash crypto.Hash, via pathKind, tmp string, ve
 			fmt.Println("    VIOLATION", s)
 		}
 	}
-	if via == pathStandalone && hash == crypto.SHA256 && (t.ID == "xar" || t.ID == "apk:v1+v2" || t.ID == "cosign" || t.ID == "rpm") && (c.ID == "rsaA|x509=chain-leaf-last|pgp=file-same|file" || c.ID == "rsaA|x509=pkcs12-matching|pgp=file-same|file") {
-		run.Sample(map[string]any{"case": id, "observations": res.Obs})
-	}
+	sample()
 	return true
+}
+
+// mechanism names the signature builder an observation came from.
+func mechanism(o sigObs) string {
+	switch {
+	case o.PGP:
+		return "openpgp"
+	case o.Part == "v2":
+		return "apk-v2"
+	case o.Part == "payload":
+		return "cosign"
+	case o.Part == "classic-rsa":
+		return "xar-classic"
+	case strings.HasPrefix(o.Part, "xmldsig"):
+		return "xmldsig"
+	}
+	return "cms"
+}
+
+// a few cases written out in the evidence
+var sampleWanted = map[string]bool{
+	"rsaA|x509=pkcs12-matching|pgp=file-same|file,xar":                                          true,
+	"rsaA|x509=leaf-of-rsaB|pgp=file-same|file,apk:v2-only":                                     true,
+	"p256A|x509=pkcs7-chain-pem|pgp=none|file,cosign":                                           true,
+	"p256A|x509=leaf-of-p256A-for-negated-point-key|pgp=none|file,vsix":                         true,
+	"rsaA|x509=chain-leaf-first|pgp=cert-of-rsaB|file,rpm":                                      true,
+	"rsaA|x509=chain-leaf-first|pgp=file-same|verif|signer=rsaB,pe-coff":                        true,
+	"rsaA|x509=chain-leaf-first|pgp=file-same|verif|worker=rotated-cache-live,appmanifest":      true,
+	"rsaA|x509=chain-leaf-first|pgp=file-same|verif|worker=rotated-cache-expired,pgp:clearsign": true,
 }
 
 func contains(l []string, s string) bool {
@@ -577,6 +734,10 @@ func workList(cfgs []keyCfg, types []sigType, thorough bool) []workItem {
 	for ci, c := range cfgs {
 		for ti, t := range types {
 			if t.Thorough && !thorough {
+				continue
+			}
+			if c.Worker != "" {
+				out = append(out, workItem{ci, ti, crypto.SHA256, pathWorker})
 				continue
 			}
 			out = append(out, workItem{ci, ti, crypto.SHA256, pathStandalone})
@@ -630,7 +791,7 @@ func main() {
 				} `json:"replay"`
 			}
 			must(json.Unmarshal(blob, &r))
-			only = r.Replay.Case.Config + "," + r.Replay.Case.Type
+			only = r.Replay.Case.Config + "," + r.Replay.Case.Type + "," + r.Replay.Case.Hash + "," + r.Replay.Case.Path
 		}
 	}
 	tmpBase := ""
@@ -650,13 +811,30 @@ func main() {
 	cfgs := enumConfigs()
 	types := sigTypes()
 	if only != "" {
-		parts := strings.SplitN(only, ",", 2)
+		parts := strings.Split(only, ",")
+		onlyHash, onlyPath := crypto.SHA256, pathKind("")
+		if len(parts) > 2 && parts[2] != "" {
+			for h, n := range hashNames {
+				if n == parts[2] {
+					onlyHash = h
+				}
+			}
+		}
+		if len(parts) > 3 {
+			onlyPath = pathKind(parts[3])
+		}
 		tmp, err := os.MkdirTemp(tmpBase, "c07-only-")
 		must(err)
 		for _, c := range cfgs {
 			for _, t := range types {
 				if c.ID == parts[0] && (len(parts) < 2 || parts[1] == "" || t.ID == parts[1]) {
-					runCase(c, t, crypto.SHA256, pathStandalone, tmp, true)
+					via := pathStandalone
+					if c.Worker != "" {
+						via = pathWorker
+					} else if onlyPath != "" {
+						via = onlyPath
+					}
+					runCase(c, t, onlyHash, via, tmp, true)
 				}
 			}
 		}
@@ -683,10 +861,14 @@ func main() {
 				base = cfgs[0] // rsaA chain + rsaA.pgp
 			}
 			if !runCase(base, t, crypto.SHA256, pathStandalone, tmp, false) {
-				harnessError("baseline: type %s yields no artifact under configuration %s", t.ID, base.ID)
+				// relic refuses the plain configuration for this type: nothing can be
+				// observed for it, which the evidence must say (no verdict is derived from it)
+				run.Capped(fmt.Sprintf("type %s yields no artifact under the baseline configuration %s: the enumeration is vacuous for it", t.ID, base.ID))
 			}
 		}
 		os.RemoveAll(tmp)
+		nlib := libraryCases()
+		run.Set("library_builder_cases", nlib)
 		if len(harnessErrors) > 0 {
 			for _, h := range harnessErrors {
 				fmt.Println("HARNESS-ERROR:", h)
@@ -737,12 +919,12 @@ func finish(cfgs []keyCfg, types []sigType, nwork int) {
 	}
 	sort.Strings(tnames)
 	run.Set("bounds", map[string]any{
-		"key_configurations":   len(cfgs),
+		"key_configurations":    len(cfgs),
 		"configuration_classes": classes,
-		"signature_types":      tnames,
-		"cases":                nwork,
-		"hashes":               map[bool][]string{false: {"sha256"}, true: {"sha256", "sha1", "sha384", "sha512"}}[run.Thorough()],
-		"paths":                map[bool][]string{false: {"standalone"}, true: {"standalone", "server-handler (non-PKCS#12 configurations, sha256)"}}[run.Thorough()],
+		"signature_types":       tnames,
+		"cases":                 nwork,
+		"hashes":                map[bool][]string{false: {"sha256"}, true: {"sha256", "sha1", "sha384", "sha512"}}[run.Thorough()],
+		"paths":                 map[bool][]string{false: {"standalone"}, true: {"standalone", "server-handler (non-PKCS#12 configurations, sha256)"}}[run.Thorough()],
 	})
 	run.Rule("full product key configuration x signature type (thorough: x digest in {sha256,sha1,sha384,sha512}, plus the server-handler path with sha256): private key in {rsaA,rsaB,p256A,p256B,p384}; X.509 source in {leaf file, chain leaf-first, leaf-last, root-first, +unrelated root, +other leaf last/first, PKCS#7 bundle (PEM/DER/leaf-only/leaf-last, made by openssl), PKCS#12 (matching / key A leaf B / chain root-first / overridden by a file), certificate stored in the token (matching / other / leaf-last / stale), file of another key (same type, same curve other point, other curve, other algorithm), none, alias}; OpenPGP source in {matching, other key, other key type, two-entity keyrings binary/one armor/two armors in both orders, none}; token lookup in {requested key, a different key (same type / other type) for the requested name}. distinct_nontrivial = cases whose configuration is inconsistent, order-variant, certificate-less, token-based or uses a certificate source other than the plain chain/PGP file")
 	run.Assume("canonical bytes of XML-DSig SignedInfo are taken from relic's xmldsig.SerializeCanonical (canonicalisation is C19's subject); digest and RSA/ECDSA verification over them are the harness's (Go crypto)")
